@@ -13,6 +13,8 @@ pub enum Bloom {
     Bits(usize),
     /// default config scaled to 1000 elements
     Scaled,
+    /// exactly n bits probed with k hash functions
+    BitsK(usize, usize),
 }
 
 pub fn bloom_config(b: Bloom) -> Option<BloomConfig> {
@@ -28,6 +30,14 @@ pub fn bloom_config(b: Bloom) -> Option<BloomConfig> {
         Bloom::Scaled => {
             let mut c = BloomConfig::default();
             c.elements = 1000;
+            Some(c)
+        }
+        Bloom::BitsK(n, k) => {
+            let mut c = BloomConfig::default();
+            c.elements = 8;
+            c.preferred_false_positive_rate = 1e-9;
+            c.max_buf_bits_count = n;
+            c.hashers_count = k;
             Some(c)
         }
     }
